@@ -4,12 +4,13 @@
    field through any later walk or load; the same key resolves to the same object whatever the
    history; and the whole entry built for a non-generic type (unnamed composites, defined types over
    them, defined types over basic/map/slice... types) is a function of the type checker's node
-   table, identical in any two universes reached by lookups and loads.  Not proved (partial): the
-   content of generic declarations (v2) and that the same SET of keys is present after any
-   permutation / partition of the same requests -- decided by the correspondence run over
-   permutations and partitions. *)
+   table, identical in any two universes reached by lookups and loads; so is the whole entry of a v2
+   struct/interface declaration, generic or not (type parameters, origin's underlying type and
+   methods).  Not proved (partial): that the same SET of keys is present after any permutation /
+   partition of the same requests -- decided by the correspondence run over permutations and
+   partitions. *)
 Require Import Gengo.Base.Str Gengo.Model.Universe Gengo.Proofs.UniverseProofs Gengo.Proofs.CanonProofs Gengo.Proofs.FaithfulProofs Gengo.Proofs.IndepProofs
-               Gengo.Proofs.FrameProofs Gengo.Proofs.MethodsProofs Gengo.Proofs.AliasProofs Gengo.Proofs.ExactProofs Gengo.Proofs.NamedProofs.
+               Gengo.Proofs.FrameProofs Gengo.Proofs.MethodsProofs Gengo.Proofs.AliasProofs Gengo.Proofs.ExactProofs Gengo.Proofs.NamedProofs Gengo.Proofs.GenericProofs.
 
 Theorem C11_split_is_sequence : forall v2 p fuel gs1 gs2 w,
   fold_left (add_package v2 p fuel) (gs1 ++ gs2) w =
@@ -186,6 +187,30 @@ Theorem C11_defined_type_entry_independent_of_history : forall v2 p, named_ok v2
 Proof. exact alias_independent_of_history. Qed.
 Print Assumptions C11_defined_type_entry_independent_of_history.
 
+(* v2, a defined type over a struct or interface type, GENERIC OR NOT (the branch of walkType that first
+   walks the type parameters' constraints, files the entry under "Name[P,Q]", describes it from the
+   origin declaration and records the type parameters): the whole entry -- kind, members, methods,
+   type parameters -- is the same in any two universes in which "Name[P,Q]" is still undecided.
+   Hypotheses about the node table, all decidable and all true of what go/types produces: the
+   constraints are leaves (any, comparable, a basic type, a type parameter ...) none of which is filed
+   under the declaration's own name. *)
+Theorem C11_generic_declaration_entry_independent_of_history : forall v2 p, named_ok v2 p ->
+  forall f1 f2 u1 u2 use1 use2 t tstr cls under ms tps origin under' ms' ts sh u1' u2' o1 o2,
+  (wf u1 /\ canonical v2 u1 /\ pristine u1) -> (wf u2 /\ canonical v2 u2 /\ pristine u2) ->
+  plookup t p = Some (tstr, SNamed cls under ms tps origin) -> N.eqb cls 0 = false -> (N.eqb cls 1 && v2) = true ->
+  origin_of p origin under ms = (under', ms') ->
+  plookup under' p = Some (ts, sh) -> children_keyed v2 p sh ->
+  Forall (fun m => keyed v2 p (Some (name_of_string v2 (snd (fst m)))) (snd m)) ms' ->
+  forallb (fun a => is_tparam p (snd a)) tps = true ->
+  Forall (fun a => forall k0, node_key v2 p None (snd a) = Some k0 ->
+                     k0 <> generic_name v2 tstr tps /\ canon v2 k0 <> canon v2 (generic_name v2 tstr tps)) tps ->
+  complete (fst (get_or_create v2 u1 (generic_name v2 tstr tps))) (snd (get_or_create v2 u1 (generic_name v2 tstr tps))) = false ->
+  complete (fst (get_or_create v2 u2 (generic_name v2 tstr tps))) (snd (get_or_create v2 u2 (generic_name v2 tstr tps))) = false ->
+  walk v2 p (S f1) u1 use1 t = Some (u1', o1) -> walk v2 p (S f2) u2 use2 t = Some (u2', o2) ->
+  o1 = o2 /\ exists e, nlookup o1 (objs u1') = Some e /\ nlookup o2 (objs u2') = Some e.
+Proof. exact generic_entry_independent_of_history. Qed.
+Print Assumptions C11_generic_declaration_entry_independent_of_history.
+
 Theorem C11_named_ok_decidable : forall v2 p, named_okb v2 p = true -> named_ok v2 p.
 Proof. exact named_okb_sound. Qed.
 Print Assumptions C11_named_ok_decidable.
@@ -211,3 +236,52 @@ Example C11_example_defined_type :
                    option_map (fun e => map fst (e_methods e)) (nlookup o (objs u)) = Some [s "Len"]
   | None => False end.
 Proof. vm_compute. repeat split; reflexivity. Qed.
+
+(* non-vacuity for the generic branch (v2): type Box[T any] struct{ V T; L []T } with a method, and its
+   instantiation Box[int]; the declaration walked in the empty universe and the instantiation walked
+   in a universe that already holds []int give the same entry under p.Box[T] *)
+Definition ex_prog3 : prog :=
+  [(1, (s "p.Box[T any]", SNamed 1 2 [(s "Get", s "func (p.Box[T]).Get() T", 8)] [(s "T", 4)] None));
+   (2, (s "struct{V T; L []T}", SStruct [(s "V", false, [], 7); (s "L", false, [], 9)]));
+   (3, (s "int", SBasic (s "int")));
+   (4, (s "any", SIface []));
+   (5, (s "p.Box[int]", SNamed 1 6 [(s "Get", s "func (p.Box[int]).Get() int", 10)] [(s "T", 4)] (Some 1)));
+   (6, (s "struct{V int; L []int}", SStruct [(s "V", false, [], 3); (s "L", false, [], 11)]));
+   (7, (s "T", STypeParam));
+   (8, (s "func() T", SFunc [] [([], 7)] false (Some 1)));
+   (9, (s "[]T", SSlice 7));
+   (10, (s "func() int", SFunc [] [([], 3)] false (Some 5)));
+   (11, (s "[]int", SSlice 3))]%N.
+Example C11_example_generic :
+  named_okb true ex_prog3 = true /\
+  generic_name true (s "p.Box[T any]") [(s "T", 4%N)] = (s "p", s "Box[T]") /\
+  generic_name true (s "p.Box[int]") [(s "T", 4%N)] = (s "p", s "Box[T]") /\
+  origin_of ex_prog3 (Some 1%N) 6%N [] = (2%N, [(s "Get", s "func (p.Box[T]).Get() T", 8%N)]) /\
+  match walk true ex_prog3 20 {| objs := []; tkeys := [] |} None 1%N,
+        match walk true ex_prog3 20 {| objs := []; tkeys := [] |} None 11%N with
+        | Some (u0, _) => walk true ex_prog3 20 u0 None 5%N | None => None end with
+  | Some (ua, oa), Some (ub, ob) =>
+      oa = (s "p", s "Box[T]") /\ ob = oa /\ nlookup oa (objs ua) = nlookup ob (objs ub) /\
+      option_map e_kind (nlookup oa (objs ua)) = Some (s "Struct") /\
+      option_map e_members (nlookup oa (objs ua)) = Some [(s "V", false, [], ([], s "T")); (s "L", false, [], ([], s "[]T"))] /\
+      option_map e_tparams (nlookup oa (objs ua)) = Some [(s "T", ([], s "any"))] /\
+      option_map (fun e => map fst (e_methods e)) (nlookup oa (objs ua)) = Some [s "Get"]
+  | _, _ => False end.
+Proof. vm_compute. repeat split; reflexivity. Qed.
+(* ... and the node-table hypotheses of C11_generic_declaration_entry_independent_of_history hold of it
+   (a field of type-parameter type included) *)
+Example C11_example_generic_hypotheses :
+  children_keyed true ex_prog3 (SStruct [(s "V", false, [], 7%N); (s "L", false, [], 9%N)]) /\
+  Forall (fun m => keyed true ex_prog3 (Some (name_of_string true (snd (fst m)))) (snd m)) [(s "Get", s "func (p.Box[T]).Get() T", 8%N)] /\
+  forallb (fun a => is_tparam ex_prog3 (snd a)) [(s "T", 4%N)] = true /\
+  Forall (fun a => forall k0, node_key true ex_prog3 None (snd a) = Some k0 ->
+                     k0 <> (s "p", s "Box[T]") /\ canon true k0 <> canon true (s "p", s "Box[T]")) [(s "T", 4%N)] /\
+  complete (fst (get_or_create true {| objs := []; tkeys := [] |} (s "p", s "Box[T]")))
+           (snd (get_or_create true {| objs := []; tkeys := [] |} (s "p", s "Box[T]"))) = false.
+Proof.
+  split; [simpl; constructor; [right; eexists; reflexivity|constructor; [left; eexists; reflexivity|constructor]]|].
+  split; [constructor; [left; eexists; reflexivity|constructor]|].
+  split; [reflexivity|].
+  split; [|reflexivity].
+  constructor; [|constructor]. intros k0 H. vm_compute in H. injection H as <-. split; vm_compute; discriminate.
+Qed.
